@@ -31,8 +31,9 @@ def body_clean(ctx, case):
     xs = [x0]
     for k in range(n - 1):
         d = ctx.real(f"d{k}", 0, 5e3)
-        ctx.assume(h.disj([h.close(d, 0.0, 0.0), d >= 0.5]))
+        ctx.assume(h.disj([h.close(d, 0.0, 0.0), d >= 1.0 / 1024]))
         xs.append(xs[-1] - d)
+    ctx.assume(h.disj([h.close(xs[0] - xs[-1], 0.0, 0.0), xs[0] - xs[-1] >= 0.5]))     # total span 0 (flat) or >= 0.5: see the variance model
     yk, xk = misc.clean_composite_curve(list(ys), list(xs))
     yk, xk = list(yk), list(xk)
     m = len(xk)
@@ -166,9 +167,9 @@ def cases_rdp(tier, seed):
 
 FAMILIES = [
     Family(name="clean", cases=cases_clean, body=body_clean, functions=["clean_composite_curve_ends", "clean_composite_curve"], files=FILES[:1],
-           bounds="polylines of 3-5 points (thorough: 3-6): temperatures concrete, enthalpies z3 reals, monotone, each drop 0 (flat / vertical step) or >= 0.5",
+           bounds="polylines of 3-5 points (thorough: 3-6): temperatures concrete, enthalpies z3 reals, monotone, each drop 0 (flat / vertical step) or >= 1/1024, total span 0 or >= 0.5",
            assumptions=["floats modelled as exact reals", "temperatures (y) concrete, enthalpies (x) symbolic: every collinearity test stays linear",
-                        "enthalpy drops are 0 or >= 0.5 (the variance test of clean_composite_curve_ends is modelled as 'all equal?')"],
+                        "total enthalpy span is 0 or >= 0.5 (the variance test of clean_composite_curve_ends is modelled as 'all equal?'); single drops are 0 or >= 1/1024"],
            shim_modules=["OpenPinch.utils.miscellaneous"], snap="dyadic", split_paths=40, validate_every=3,
            reach=["points removed", "interior point removed"]),
     Family(name="rdp", cases=cases_rdp, body=body_rdp, functions=["_rdp", "get_piecewise_data_points", "_get_piecewise_breakpoints"], files=FILES[1:],
